@@ -236,7 +236,7 @@ CHECKS["C09"] = {
     "quick": {"shards": 8, "checks": 6000},
     "thorough": {"shards": 16, "checks": 10000},
     "rule": "rapid-generated interleavings, on a non-full MapPollard started fresh (TotalRows from {0,1,2,3,4,5,7,63}) or from bare roots of a generated state "
-            "(NewMapPollardFromRoots), of: block (Verify(remember) of the deletions, Modify with generated Remember flags), Verify(remember) and Ingest of "
+            "(NewMapPollardFromRoots), of: block (Verify(remember) of the deletions, Modify with generated Remember flags), Verify(remember), Ingest and GetMissingPositions+VerifyPartialProof(remember) of "
             "arbitrary live sets with honest proofs (1 call in 12 with EMPTY arguments, 1 in 12 a proof with one wrong hash given to Verify(remember) - refused or not, nothing false may be stored), Prune of subsets of the cache, Undo, and Modify calls the forest must REFUSE (remembered leaves followed by a live leaf it does not remember; afterwards the remembered ones are still remembered and provable). The harness tracks the expected remembered set. After EVERY "
             "operation, with the model laid out in TotalRows coordinates: every stored (position,hash) is a true node hash (roots may be zero); the cache "
             "holds exactly the remembered leaves at their true positions; required (roots, remembered leaves, canonical proof positions) is a subset of "
@@ -279,7 +279,7 @@ CHECKS["C13"] = {
     "level": "fault_enumeration",
     "quick": {"shards": 8, "checks": 1000},
     "thorough": {"shards": 16, "checks": 2500},
-    "rule": "a rapid-generated step sequence (block / undo / Verify(remember); for a partial forest also Prune and Ingest) brings a Pollard, a full or a partial "
+    "rule": "a rapid-generated step sequence (block / undo / Verify(remember); for a partial forest also Prune, Ingest and GetMissingPositions+VerifyPartialProof(remember)) brings a Pollard, a full or a partial "
             "MapPollard (generated TotalRows) to a reachable state that is first checked against the reference model. Then, per state, enumerated: (a) round trip through "
             "eight reader set-ups (whole, one byte, halves, data-with-EOF, rapid-drawn chunk sizes, the same with EOF on the last chunk, and whole / chunked with 9000 foreign bytes FOLLOWING the stream in the same reader): no error, reported "
             "and consumed bytes = stream length = Pollard.SerializeSize(), restored instance equals the model (complete observation set; C09 sandwich for a "
@@ -333,8 +333,9 @@ CHECKS["C15"] = {
     "quick": {"shards": 8, "checks": 1500},
     "thorough": {"shards": 16, "checks": 8000},
     "rule": "block histories as in C01 (all deletion / addition shapes) replayed on the reference model only; every block's summary is (the model's canonical targets of the "
-            "deleted leaves in request order, as a prover emits them; the addition count). A fresh CachingScheduleTracker is fed the summaries once per memory limit "
-            "(one of 1..3, one uniform in 1..total additions, and always total+0..5 or 2^20) and GenerateCachingSchedule is checked against the model's "
+            "deleted leaves in request order, as a prover emits them; the addition count). A CachingScheduleTracker is fed the summaries and asked for every memory limit "
+            "(one of 1..3, one uniform in 1..total additions, and always total+0..5 or 2^20) - per case either a fresh tracker per limit, or ONE tracker asked for all limits "
+            "in turn, or ONE tracker asked after up to three prefixes of the history and at the end (each answer judged against the blocks recorded so far) - and GenerateCachingSchedule is checked against the model's "
             "creation / deletion block of every slot: one list per block; strictly ascending; every entry is a slot added by that block and deleted by a later block; "
             "for every block the number of scheduled slots alive there is <= the limit; with a limit >= all leaves ever added every slot with a recorded deletion is "
             "scheduled. Non-trivial: some block empties a tree and adds in the same block, or a limit forced an eviction decision (fewer scheduled than spendable).",
@@ -379,7 +380,7 @@ CHECKS["C12"] = {
     "quick": {"shards": 8, "checks": 200, "timeout": 1500, "hang": 200},
     "thorough": {"shards": 16, "checks": 4000, "timeout": 7200, "hang": 300},
     "rule": "built with -race (GORACE halt_on_error). A rapid-generated writer script (block / undo / Verify(remember) / re-read of its own serialization; 1 script in 12 contains one block adding 1100-1700 leaves, after which queries name hundreds of hashes; for a partial forest also "
-            "Prune and Ingest) on a full or partial MapPollard with generated TotalRows, and a query set holding every reader method at least once (GetRoots, GetStump, Prove x2, "
+            "Prune, Ingest and GetMissingPositions+VerifyPartialProof(remember=true)) on a full or partial MapPollard with generated TotalRows, and a query set holding every reader method at least once (GetRoots, GetStump, Prove x2, "
             "Verify(remember=false), GetLeafPosition x2, GetLeafHashPositions, GetHash x2 (1-6 positions), GetMissingPositions, GetNumLeaves, GetTreeRows, Write (parsed), "
             "VerifyPartialProof(remember=false)) with arguments resolved in a drawn between-steps state. Expected answers: a sequential replica run of the same script answers "
             "every query in every between-steps state. Two schedule generators: OWNED (2 of 3 cases): the verifPoint hook suspends the writer at a drawn (step, site, occurrence) "
